@@ -20,6 +20,7 @@ type GenParams struct {
 	SmallPages bool // only 1024 byte pages
 	NoFill     bool
 	AbortHeavy bool // more rollbacks / closes
+	SyncNone   bool // allow Options.Sync = SyncNone (not for crash checks)
 	HugeTx     bool // rarely: one transaction with more page writes than the writer's batch buffer (1024)
 	Shapes     bool // bulk shapes: fragmented free lists, many overwrites, big regions
 }
@@ -61,6 +62,9 @@ func GenConfig(t *rapid.T, p GenParams) Config {
 		c.InitMeta = uint32(c.MaxPages) - 3
 	}
 	c.SyncFull = rapid.IntRange(0, 5).Draw(t, "syncFull") == 0
+	if p.SyncNone && !c.SyncFull && rapid.IntRange(0, 5).Draw(t, "syncNone") == 0 {
+		c.SyncNone = true
+	}
 	return c
 }
 
